@@ -88,6 +88,12 @@ func seedFromEnv() int64 {
 // runProperty runs all rules of one property on one loaded program.
 func runProperty(p *Prog, m *Models, spec *PropSpec, s *Sink) {
 	s.config = p.Config.Label
+	if s.funcs == nil {
+		s.funcs = map[string]bool{}
+	}
+	for _, fn := range p.SrcFuncs() {
+		s.funcs[fnName(fn)] = true
+	}
 	ctx := &Ctx{Prog: p, S: s, M: m}
 	for _, r := range spec.Rules {
 		func() {
@@ -191,7 +197,7 @@ func cmdAll(args []string) int {
 					fmt.Printf("   ok        %s  %s  %s\n", o.Key, o.Pos, o.Detail)
 				}
 			case stViolated:
-				if kf != nil && kf.match(id, o.Key, o.Alt) != nil {
+				if kf != nil && kf.matchIn(id, o.Key, o.Alt, s.funcs) != nil {
 					k++
 					if *verbose {
 						fmt.Printf("   known     %s  %s  %s\n", o.Key, o.Pos, o.Detail)
